@@ -174,7 +174,10 @@ def _namespace_rule(ctx, f, label):
     """the dict handed to exec as globals is created inside the call (fresh per call), filled, then extended by the user's locals"""
     g = [s for s in f.node.body if isinstance(s, ast.Assign) and isinstance(s.targets[0], ast.Name) and s.targets[0].id == 'globals']
     execs = calls_where(f.node, lambda c: callee_text(c) == 'exec')
-    fresh = bool(g) and isinstance(g[0].value, ast.Dict) and not g[0].value.keys
+    g = [s for s in stmts_of(f.node) if isinstance(s, (ast.Assign, ast.AugAssign)) and any(isinstance(n, ast.Name) and n.id == 'globals' and isinstance(n.ctx, ast.Store) for n in ast.walk(s))]
+    fresh = bool(g) and all(isinstance(x, ast.Assign) and isinstance(x.value, ast.Dict) and not x.value.keys for x in g)
+    if g and not fresh:
+        g = [x for x in g if not (isinstance(x, ast.Assign) and isinstance(x.value, ast.Dict) and not x.value.keys)] + g
     uses = [c for c in execs if len(c.args) >= 2]
     names_ok = all(isinstance(c.args[1], ast.Name) and c.args[1].id == 'globals' for c in uses) and bool(uses)
     modlevel = [n for n in ast.walk(f.node) if isinstance(n, ast.Global)]
